@@ -423,6 +423,39 @@ def canaries(chk, prog):
             chk.canary(name, False, "canary crashed: %s: %s" % (type(e).__name__, e))
 
 
+def seed_canaries(chk, prog):
+    """SEED-GUARD must fire when the null guard of ecompass or ROLEQ's None test is taken out (the two defects repaired in /repo, re-introduced on a mutated copy)"""
+    from sa.report import Check
+
+    def no_ecompass_guard(tree):
+        for fn in tree.body:
+            if isinstance(fn, ast.FunctionDef) and fn.name == "ecompass":
+                for n in ast.walk(fn):
+                    if isinstance(n, ast.If) and "_norm == 0" in ast.unparse(n.test) and n.body and isinstance(n.body[-1], ast.Raise):
+                        n.test = ast.Constant(False)
+                        return True
+        return False
+
+    def no_none_test(tree):
+        for c in ast.walk(tree):
+            if isinstance(c, ast.ClassDef) and c.name == "ROLEQ":
+                for n in ast.walk(c):
+                    if isinstance(n, ast.If) and isinstance(n.test, ast.Compare) and isinstance(n.test.ops[0], ast.Is) and n.body and isinstance(n.body[-1], ast.Raise) \
+                            and isinstance(n.test.comparators[0], ast.Constant) and n.test.comparators[0].value is None and isinstance(n.test.left, ast.Name) and n.test.left.id == "q0":
+                        n.test = ast.Constant(False)
+                        return True
+        return False
+    for name, rel, tr, where in (("delete the null-sample guard of ecompass", "ahrs/common/orientation.py", no_ecompass_guard, "FKF._compute_all"),
+                                 ("delete ROLEQ's test of the None seed", F + "roleq.py", no_none_test, "ROLEQ._compute_all")):
+        try:
+            p2 = prog.mutated(rel, tr)
+            sub = Check("C13", chk.tier, p2, quiet=True)
+            seed_guard(sub, p2)
+            chk.canary(name, any(f_.rule == "SEED-GUARD" and f_.function == where for f_ in sub.findings), "%d findings" % len(sub.findings))
+        except Exception as e:
+            chk.canary(name, False, "canary crashed: %s: %s" % (type(e).__name__, e))
+
+
 RECURSIVE_ENTRIES = {"madgwick.py::Madgwick.updateIMU", "madgwick.py::Madgwick.updateMARG", "mahony.py::Mahony.updateIMU",
                      "mahony.py::Mahony.updateMARG", "ekf.py::EKF.update", "ukf.py::UKF.update", "aqua.py::AQUA.updateIMU",
                      "aqua.py::AQUA.updateMARG", "fourati.py::Fourati.update", "roleq.py::ROLEQ.update", "roleq.py::ROLEQ.oleq",
@@ -448,4 +481,5 @@ def run(chk, prog, tier):
     seed_guard(chk, prog)
     chk.require_count("GUARD-DIV", 20)
     canaries(chk, prog)
+    seed_canaries(chk, prog)
     return __doc__
